@@ -1489,6 +1489,9 @@ class Interp:
                 r = hm(self, callee.args[0], callee.args[1], args, kwargs, e, func)
                 if r is not NotImplemented:
                     return r
+            if isinstance(callee.args[0], (PackerV, list, dict, str, bytes, bytearray, StrV, BytesV, StreamV, BufV)):
+                # bound-method alias of a value the interpreter models (pack = cm.packer["B"].pack; add = out.append)
+                return self.call_method(callee.args[0], callee.args[1], args, kwargs, e, env, func)
             return Sym("call", callee, *args)
         return Sym("call", name or ast.unparse(e.func)[:40], *args)
 
